@@ -315,6 +315,12 @@ def gen_attack_world(rng, big=False):
         agents.append(a)
         state.append({"pos": list(pos), "health": health, "ammo": ammo, "orient": 1})
     desc = {"rows": rows, "cols": cols, "overlap": overlap, "agents": agents, "state": state}
+    if huge and n > 10 and rng.random() < 0.7:
+        # the main attacker gets a two-digit index (its id then contains the id of agent k - 10 as a substring)
+        k = rng.randrange(10, n)
+        agents[0], agents[k] = agents[k], agents[0]
+        state[0], state[k] = state[k], state[0]
+        desc["main"] = k
     present = sorted({a["enc"] for a in agents})
     mapping = []
     for e in present:
@@ -459,7 +465,7 @@ class AttackProp(core.Prop):
                 sess = AttackSession(desc, actor)
             except (ValueError, AssertionError, KeyError, TypeError):
                 continue          # illegal description / configuration rejected by the constructors
-            a = 0
+            a = main = desc.get("main", 0)
             dims = space_dims(sess, a)
             npoints = 1
             for dd in dims:
@@ -499,7 +505,7 @@ class AttackProp(core.Prop):
                     break
                 if rng.random() < 0.5:
                     _perturb(sess, rng)      # the layout changes between two attacks of the same actor object
-                a = 0 if (0 in attackers and rng.random() < 0.6) else rng.choice(attackers)
+                a = main if (main in attackers and rng.random() < 0.6) else rng.choice(attackers)
                 dims = space_dims(sess, a)
                 keys = enc_keys(sess, a, rng) if sess.kind == "encoding" else None
                 tape = gen_tape(rng)
